@@ -129,6 +129,13 @@ def parseOp (tok : String) : Option Op :=
   | 'x' :: a :: b :: h => match unhex (String.ofList [a, b]), unhex (String.ofList h) with
       | some [s], some [w1, w0] => some (.exit s.toNat (w1.toNat * 256 + w0.toNat))
       | _, _ => none
+  | 'k' :: a :: b :: h => match unhex (String.ofList [a, b]), unhex (String.ofList h) with
+      | some [s], some [w1, w0] => some (.reap s.toNat (w1.toNat * 256 + w0.toNat))
+      | _, _ => none
+  | ['z', a, b] => match unhex (String.ofList [a, b]) with
+      | some [s] => some (.peof s.toNat)
+      | _ => none
+  | ['e'] => some .eof
   | _ => none
 
 def parseScript (s : String) : Option (List Op) :=
@@ -139,7 +146,7 @@ def parseScript (s : String) : Option (List Op) :=
 
 /-- render model events in the harness's format; `pend` = merged output not yet printed -/
 def render : Bytes → List Ev → List String
-  | pend, [] => (if pend.isEmpty then [] else ["W" ++ hexRaw pend]) ++ ["e0"]
+  | pend, [] => (if pend.isEmpty then [] else ["W" ++ hexRaw pend])
   | pend, e :: r =>
     let flush := if pend.isEmpty then [] else ["W" ++ hexRaw pend]
     match e with
@@ -170,6 +177,7 @@ def parseTrace (toks : List String) : Option (List Ev × Bool) := do
         evs := evs ++ [.spawnCall (s'.headD 0).toNat sd' rc' a']
       | _ => none
     | ['e', '0'] => normal := true
+    | 'q' :: _ => pure ()          -- exit point (script events consumed): compared with the model only
     | _ => none
   return (evs, normal)
 
@@ -177,14 +185,17 @@ def handle (st : Stats) (kindS planh scriptS trace : String) : IO Stats := do
   let kind := if kindS == "l" then Kind.l else Kind.r
   match planOf planh, parseScript scriptS with
   | some plan, some script =>
-    let input := script.foldr (fun o acc => match o with | .cmd b => b ++ acc | _ => acc) []
+    -- what the program can have read: the bytes that arrive on descriptor 0 before its EOF
+    let input := inputOf script
     let cmds := Nq.Spec.TB.parseCmds (input.length + 1) input
     let h := hashBytes (scriptS.toUTF8.toList ++ planh.toUTF8.toList ++ kindS.toUTF8.toList)
     let fresh := !st.seen.contains h
     let mut st := { st with cases := st.cases + 1, seen := st.seen.insert h,
                             nontrivial := st.nontrivial + (if fresh && !cmds.isEmpty then 1 else 0) }
     st := st.bump ("spawn_" ++ kindS)
-    let model := ",".intercalate (render [] (run kind plan script).2)
+    let model := ",".intercalate (render [] (run kind plan script).2 ++ [s!"q{runConsumed kind plan script}", "e0"])
+    if script.any (fun o => match o with | .eof => true | _ => false) then st := st.bump "spawn_eof_midway"
+    if script.any (fun o => match o with | .reap _ _ => true | _ => false) then st := st.bump "spawn_reap_then_eof"
     if model != trace then
       st ← disagree st s!"kind=spawn{kindS} in={scriptS} plan={planh} impl={trace} model={model}"
     match parseTrace (trace.splitOn ",") with
